@@ -125,13 +125,20 @@ func run(c kvh.Case) (flags, pbt.Info, error) {
 		case "load":
 			// state reached through FromJSON is a history too: the document replaces
 			// the content, and everything below must keep holding from there
-			pairs := kvh.LoadPairs(c.Cmp, op.L)
-			if err := box.Load(pairs); err != nil {
-				return fail(i, op, "FromJSON(%s) failed: %v", kvh.LoadDoc(pairs, false), err)
+			pairs, replace, err := box.DoLoad(c.Cmp, op)
+			if err != nil {
+				return fail(i, op, "%v", err)
 			}
-			m.Clear()
-			for _, p := range pairs {
-				m.Put(p[0], p[1])
+			if replace {
+				m.Clear()
+				for _, p := range pairs {
+					m.Put(p[0], p[1])
+				}
+			} else {
+				label("load:rejected") // not a Put, Remove or Clear: everything below must still hold
+			}
+			if op.B == 2 {
+				label("load:null")
 			}
 			label("load")
 		case "probe":
@@ -250,13 +257,20 @@ func runBidi(c kvh.Case) (flags, pbt.Info, error) {
 			m.Clear()
 			box.Clear()
 		case "load":
-			pairs := kvh.LoadPairs(c.Cmp, op.L)
-			if err := box.Load(pairs); err != nil {
-				return fail(i, op, "FromJSON(%s) failed: %v", kvh.LoadDoc(pairs, false), err)
+			pairs, replace, err := box.DoLoad(c.Cmp, op)
+			if err != nil {
+				return fail(i, op, "%v", err)
 			}
-			m.Clear()
-			for _, p := range pairs {
-				m.Put(p[0], p[1])
+			if replace {
+				m.Clear()
+				for _, p := range pairs {
+					m.Put(p[0], p[1])
+				}
+			} else {
+				label("load:rejected") // not a Put, Remove or Clear: everything below must still hold
+			}
+			if op.B == 2 {
+				label("load:null")
 			}
 			label("load")
 		case "probe":
@@ -316,7 +330,7 @@ func check(c kvh.Case) (pbt.Info, error) {
 }
 
 func params(kind string) kvh.GenParams {
-	p := kvh.GenParams{Kind: kind, MaxOps: 45, RunMax: 24, Loads: true}
+	p := kvh.GenParams{Kind: kind, MaxOps: 45, RunMax: 24, Loads: true, BadLoads: true}
 	switch kind {
 	case kvh.TreeMap, kvh.RBT, kvh.AVL, kvh.BTree:
 		p.Cmps = dom.AllCmps
